@@ -397,21 +397,7 @@ class World:
             self._check()
         runnable = [node for node in self.nodes.values() if node.has_ready(self.now)]
         if not runnable:
-            nxt = None
-            if self.heap:
-                nxt = self.heap[0][0]
-            for node in self.nodes.values():
-                if not node.alive:
-                    continue
-                tmo = node.next_timeout()
-                if tmo is not None:
-                    if node.stall_until > tmo:
-                        tmo = node.stall_until
-                    if nxt is None or tmo < nxt:
-                        nxt = tmo
-                elif node.stall_until > self.now and (node.dbus_pending or node.sources):
-                    if nxt is None or node.stall_until < nxt:
-                        nxt = node.stall_until
+            nxt = self._peek_next()
             if nxt is None:
                 return False
             if nxt > self.max_time_us:
@@ -431,7 +417,10 @@ class World:
             # a process spinning on an idle source: legal to be arbitrarily
             # slow; keeps busy-waits from dominating the step budget
             cost <<= min(node.idle_streak - 4, 6)
-        self.now += cost
+        # per-node CPU: this node is busy for ``cost``; other nodes (other
+        # processes / hosts) are not delayed by it
+        if node.stall_until < self.now + cost:
+            node.stall_until = self.now + cost
         self._check()
         return True
 
@@ -469,13 +458,20 @@ class World:
         return any(node.has_ready(self.now) for node in self.nodes.values())
 
     def _peek_next(self):
+        ''' Earliest future time at which something can happen. '''
         nxt = self.heap[0][0] if self.heap else None
         for node in self.nodes.values():
             if not node.alive:
                 continue
             tmo = node.next_timeout()
-            if tmo is not None and (nxt is None or tmo < nxt):
-                nxt = tmo
+            if tmo is not None:
+                if node.stall_until > tmo:
+                    tmo = node.stall_until
+                if nxt is None or tmo < nxt:
+                    nxt = tmo
+            if node.stall_until > self.now and (node.dbus_pending or node.sources):
+                if nxt is None or node.stall_until < nxt:
+                    nxt = node.stall_until
         return nxt
 
 
